@@ -1,7 +1,7 @@
 #!/bin/bash
 # usage: tools/confirm_seed.sh <PID> <k>   — confirm a seeded change in a scratch export of /repo HEAD:
 # demo fails with the change, passes without it, full pinned suite passes with it. Writes /tmp/seed/<PID>/out/change_k/confirm.json
-pid=$1; k=$2; src=/tmp/seed/$pid/out/change_$k
+pid=$1; k=$2; src=${SEEDROOT:-/tmp/seed}/$pid/out/change_$k
 d=$(mktemp -d /tmp/confirm.XXXXXX)
 git -C /repo archive HEAD | tar -x -C "$d"
 cd "$d"
